@@ -130,21 +130,26 @@ Fixpoint gcheck (p : params) (subs : list gsub) (ops : list gop) (os : list (opt
   | _, _ => false
   end.
 
-(* ---------------------------------------------------------------- specification *)
-Definition b_elig (b : wb) : bool := wb_elig b.                     (* avail && weight > 0 *)
-Definition has_elig (bs : list wb) : bool := existsb b_elig bs.
-Definition elig_in (bs : list wb) (id : Z) : bool := existsb (fun b => b_elig b && (wb_id b =? id)) bs.
-Fixpoint find_sub_w (name : key) (subs : list gsub) : option gsub :=
+(* ---------------------------------------------------------------- specification (no credits, no connection counts) *)
+Definition pb := (Z * Z * bool)%type.                       (* backend: id, weight, avail *)
+Definition psub := (key * Z * list pb)%type.                (* sub-cluster: name, gslb weight, backends *)
+Definition pb_elig (b : pb) : bool := snd b && (0 <? snd (fst b)).           (* avail && weight > 0 *)
+Definition has_elig (bs : list pb) : bool := existsb pb_elig bs.
+Definition elig_in (bs : list pb) (id : Z) : bool := existsb (fun b => pb_elig b && (fst (fst b) =? id)) bs.
+Fixpoint pfind (name : key) (subs : list psub) : list pb :=
   match subs with
-  | [] => None
-  | s :: r => if key_eqb (s_name s) name then Some s else find_sub_w name r
+  | [] => []
+  | s :: r => if key_eqb (fst (fst s)) name then snd s else pfind name r
   end.
 (* first choice by the C02 specification: owner of the residue among the positive-weight sub-clusters *)
-Definition spec_first (subs : list gsub) (h : Z) : option key :=
-  spec_pick 1 false (map (fun s => (s_name s, s_w s, true)) subs) h.
+Definition spec_first (subs : list psub) (h : Z) : option key :=
+  spec_pick 1 false (map (fun s : psub => (fst (fst s), snd (fst s), true)) subs) h.
+(* sub-clusters usable for a cross-cluster retry: not the first choice, weight >= 0, not the blackhole *)
+Definition pcross (subs : list psub) (cur : key) : list psub :=
+  filter (fun s : psub => negb (key_eqb (fst (fst s)) cur) && (0 <=? snd (fst s)) && negb (is_bh (fst (fst s)))) subs.
 
 (* what a Balance call may return, given the configuration, retry count and hash *)
-Definition spec_balance (p : params) (subs : list gsub) (retry h : Z) (o : obs) : bool :=
+Definition spec_balance (p : params) (subs : list psub) (retry h : Z) (o : obs) : bool :=
   let '(m, rmax, cross) := p in
   if retry >? rmax + cross then obs_eqb o (mkObs 6 [] (-1) retry 0 0)
   else match spec_first subs h with
@@ -152,7 +157,7 @@ Definition spec_balance (p : params) (subs : list gsub) (retry h : Z) (o : obs) 
   | Some fc =>
     if is_bh fc then obs_eqb o (mkObs 2 fc (-1) retry 0 2)              (* blackhole: always rejected *)
     else
-      let fbs := find_bs fc subs in
+      let fbs := pfind fc subs in
       if (retry <=? rmax) && has_elig fbs
       then (* first choice has an eligible backend: it must be used *)
         (o_code o =? 0) && key_eqb (o_sub o) fc && elig_in fbs (o_bid o) &&
@@ -160,25 +165,32 @@ Definition spec_balance (p : params) (subs : list gsub) (retry h : Z) (o : obs) 
       else
         let retry' := if retry <=? rmax then rmax else retry in
         if cross <=? 0 then obs_eqb o (mkObs 3 fc (-1) retry' 0 3)
-        else match cross_cands subs fc with
+        else match pcross subs fc with
              | [] => obs_eqb o (mkObs 4 fc (-1) retry' 1 4)
              | xs =>
-               (* some other non-negative, non-blackhole sub-cluster; backend iff that one has an eligible one *)
-               existsb (fun x => key_eqb (s_name x) (o_sub o) &&
-                                 (if has_elig (s_bs x)
-                                  then (o_code o =? 0) && elig_in (s_bs x) (o_bid o) && (o_ecode o =? 0)
+               (* some other non-negative, non-blackhole sub-cluster; a backend iff that one has an eligible one *)
+               existsb (fun x : psub => key_eqb (fst (fst x)) (o_sub o) &&
+                                 (if has_elig (snd x)
+                                  then (o_code o =? 0) && elig_in (snd x) (o_bid o) && (o_ecode o =? 0)
                                   else (o_code o =? 5) && (o_bid o =? -1) && (o_ecode o =? 3))) xs &&
                (o_retry o =? retry') && (o_cross o =? 1)
              end
   end.
-Fixpoint gspec (p : params) (subs : list gsub) (ops : list gop) (os : list (option obs)) : bool :=
+Definition p_set_avail (subs : list psub) (sub : key) (id : Z) (a : bool) : list psub :=
+  map (fun s : psub => if key_eqb (fst (fst s)) sub
+                then (fst (fst s), snd (fst s), map (fun b : pb => if fst (fst b) =? id then (fst (fst b), snd (fst b), a) else b) (snd s))
+                else s) subs.
+Fixpoint gspec (p : params) (subs : list psub) (ops : list gop) (os : list (option obs)) : bool :=
   match ops, os with
   | [], [] => true
   | GBalance retry h :: r, Some o :: os' => spec_balance p subs retry h o && gspec p subs r os'
-  | GAvail s id a :: r, None :: os' => gspec p (g_set_avail subs s id a) r os'
-  | GConn s id n :: r, None :: os' => gspec p (g_set_conn subs s id n) r os'
+  | GAvail s id a :: r, None :: os' => gspec p (p_set_avail subs s id a) r os'
+  | GConn _ _ _ :: r, None :: os' => gspec p subs r os'
   | _, _ => false
   end.
 
 Definition g_init (conf : list (key * Z * list (Z * Z))) : list gsub :=
   map (fun s => (fst (fst s), snd (fst s), winit (snd s))) conf.
+(* backend weights as BackendRR.Init stores them (configured x100) *)
+Definition p_init (conf : list (key * Z * list (Z * Z))) : list psub :=
+  map (fun s => (fst (fst s), snd (fst s), map (fun e : Z * Z => (fst e, 100 * snd e, true)) (snd s))) conf.
